@@ -82,63 +82,33 @@ func (t *TFile) trackWrite(offset int64, length int64) {
 	defer t.lock.Unlock()
 
 	txn := t.tracker.Txn()
-	insertStart := true
-	insertEnd := true
 
-	if t.tracker.Len() == 0 {
-
-		txn.Insert(getKey(start), startFlag)
-		txn.Insert(getKey(end), endFlag)
-		t.tracker = txn.Commit()
-
-		return
-	}
-
+	// is the offset just before start / the offset end inside a tracked range?
+	openBefore, openAfter := false, false
 	fn := func(k []byte, v interface{}) bool {
 		isStart := v.(bool)
-		isEnd := !isStart
 		key := getOffset(k)
-
-		deleteKey := func() {
-			if key <= end {
-				txn.Delete(k)
-			}
-		}
 		switch {
-		case isStart && (key == start):
-			insertStart = false
+		case key < start:
+			openBefore = isStart
+			openAfter = isStart
 			return !terminate
-		case isStart && (key < start):
-			// Only interim keys need deleting
-			return !terminate
-		case isStart && (key > start):
-			deleteKey()
-			return !terminate
-		case isEnd && (key < start):
-			// Previous end hit and can be ignored, process next key
-			return !terminate
-		case isEnd && (key > start):
-			// There is an end that is after start and no other key in the range.
-			// Skip inserting start, previous start will cover the range.
-			insertStart = false
-			// This key might need deleting and process other keys
-			if key >= end {
-				insertEnd = false
-				return terminate
-			}
-			deleteKey()
+		case key <= end:
+			// every marker in [start, end] is superseded by this write
+			openAfter = isStart
+			txn.Delete(k)
 			return !terminate
 		default:
-			return !terminate
+			return terminate
 		}
 	}
 
 	// TODO: To reduce the walk use prefix but needs to be walked twice offset and offset + length
 	t.tracker.Root().Walk(fn)
-	if insertStart {
+	if !openBefore {
 		txn.Insert(getKey(start), startFlag)
 	}
-	if insertEnd {
+	if !openAfter {
 		txn.Insert(getKey(end), endFlag)
 	}
 	t.tracker = txn.Commit()
